@@ -79,6 +79,9 @@ func (o *obj) slotAddr(k int) int {
 	case oPtrList:
 		return o.addr + k
 	default:
+		if o.np == 0 {
+			return o.addr
+		}
 		e, i := k/o.np, k%o.np
 		return o.addr + e*(o.dw+o.np) + o.dw + i
 	}
@@ -112,9 +115,9 @@ func (r *run) buildGraph(chain bool) *graph {
 	n := 2 + s.Choice("nobjs", 4)
 	for i := 0; i < n; i++ {
 		o := &obj{id: i}
-		k := s.Choice("okind", 3)
-		if i == 0 {
-			k = 0 // the root must be a struct
+		k := s.Choice("okind", 4)
+		if i == 0 || (chain && k == 3) {
+			k = 0 // the root must be a struct; a chain has no leaves
 		}
 		switch k {
 		case 0:
@@ -123,6 +126,9 @@ func (r *run) buildGraph(chain bool) *graph {
 			o.kind, o.n = oPtrList, 1+s.Choice("pn", 3)
 		case 2:
 			o.kind, o.n, o.dw, o.np = oCompList, 1+s.Choice("cn", 3), s.Choice("cdw", 2), 1+s.Choice("cnp", 2)
+		case 3: // list of zero-sized structs: every element must still be charged one word
+			o.kind, o.n = oCompList, []int{1, 2, 5, 100, 1000}[s.Choice("zn", 5)]
+			s.Probe("zero_sized_element_list")
 		}
 		if chain {
 			switch o.kind {
